@@ -29,6 +29,12 @@ func newInputReader(r io.Reader) *inputReader {
 	return &inputReader{io.TeeReader(r, &buf), nil, &buf}
 }
 
+// countNewlines counts the line terminators LF, CRLF and CR (ref: stringScanner).
+func countNewlines(b []byte) int {
+	return bytes.Count(b, []byte{'\n'}) + bytes.Count(b, []byte{'\r'}) -
+		bytes.Count(b, []byte("\r\n"))
+}
+
 func (ir *inputReader) getContents(offset *int64, line *int) string {
 	if buf := ir.buf; buf != nil {
 		return buf.String()
@@ -42,8 +48,13 @@ func (ir *inputReader) getContents(offset *int64, line *int) string {
 	for offset != nil && *offset > bufSize*3/4 {
 		n, err := io.Copy(&buf,
 			io.LimitReader(ir.rs, min(bufSize, *offset-bufSize/4)))
+		if b := buf.Bytes(); n > 0 && b[n-1] == '\r' { // do not split CRLF
+			if _, err := ir.rs.Seek(-1, io.SeekCurrent); err == nil {
+				n--
+			}
+		}
 		*offset -= n
-		*line += bytes.Count(buf.Bytes(), []byte{'\n'})
+		*line += countNewlines(buf.Bytes()[:n])
 		buf.Reset()
 		if err != nil || n == 0 {
 			break
@@ -109,8 +120,11 @@ func (i *jsonInputIter) Next() (any, bool) {
 	if buf := i.ir.buf; buf != nil && buf.Len() >= 16*1024 {
 		// discard only what the decoder has scanned, keep its read-ahead
 		n := min(int(i.dec.InputOffset()-i.offset), buf.Len())
+		if n > 0 && buf.Bytes()[n-1] == '\r' { // do not split CRLF
+			n--
+		}
 		i.offset += int64(n)
-		i.line += bytes.Count(buf.Next(n), []byte{'\n'})
+		i.line += countNewlines(buf.Next(n))
 	}
 	return v, true
 }
